@@ -24,7 +24,10 @@ import urllib.request
 
 def urlnormalize(url):
     lc = url.lower()
-    if lc.startswith("file:/") and not lc.startswith("file:///"):
+    if lc.startswith("file://localhost/"):
+        # the host part spelled out: this machine
+        url = "file://" + url[16:]
+    elif lc.startswith("file:/") and not lc.startswith("file://"):
         url = "file://" + url[5:]
     return url
 
@@ -33,12 +36,8 @@ def urlunsplit(parts):
     parts = list(parts)
     parts.insert(3, '')
     url = urllib.request.urlunparse(tuple(parts))
-    if (parts[0] == "file"
-            and url.startswith("file:/")
-            and not url.startswith("file:///")):
-        # It may not be possible to get here anymore with
-        # modern urlparse, at least not on posix?
-        url = "file://" + url[5:]  # pragma: no cover
+    if parts[0] == "file":
+        url = urlnormalize(url)
     return url
 
 
@@ -49,8 +48,4 @@ def urldefrag(url):
 
 def urljoin(base, relurl):
     url = urllib.request.urljoin(base, relurl)
-    if url.startswith("file:/") and not url.startswith("file:///"):
-        # It may not be possible to get here anymore with
-        # modern urlparse, at least not on posix?
-        url = "file://" + url[5:]  # pragma: no cover
-    return url
+    return urlnormalize(url)
